@@ -106,5 +106,8 @@ def run(chk):
     plumbing.r05_plumb(chk, rule="R19-plumb", files=("a2lfile/src/a2ml.rs",))
     r19_text(chk)
     r19_maxlen(chk)
+    # typed decoding starts from the tree that the A2ML-driven parser built: its decisions (C18's R18-items table)
+    from . import c18, diag
+    diag.compare(chk, "R19-items", "ifdata", c18.items_table(prog), "decisions of the A2ML-driven IF_DATA parser (variant built, getter, cursor operations, comment skipping) with their control predicates, compared with the reviewed table", floor=60)
     a2mltyped.run(chk)
     chk.assumptions += ["not decided: value round trip through store/load for arbitrary values; R19-text / R19-typed decide the generator on the reference invocations only (the 'programs' quantifier of the property is that fixed set)"]
